@@ -284,6 +284,15 @@ impl Cfg {
     // TODO move to a more appropriate place
     // TODO make better, what even is this?
     pub fn error_ranges_for_first_usage(node: &Rc<CfgNode>, item: Register) -> Vec<RegisterToken> {
+        Self::first_usages(node, item)
+            .into_iter()
+            .map(|(_, reg)| reg)
+            .collect()
+    }
+
+    /// The first uses of a register on every path from a node, each with the node it is in.
+    #[must_use]
+    pub fn first_usages(node: &Rc<CfgNode>, item: Register) -> Vec<(Rc<CfgNode>, RegisterToken)> {
         let mut queue = VecDeque::new();
         let mut ranges = Vec::new();
         // push the next nodes onto the queue
@@ -314,7 +323,7 @@ impl Cfg {
                     }
                 }
                 if let Some(reg) = it {
-                    ranges.push(reg);
+                    ranges.push((Rc::clone(&next), reg));
                 }
                 // this path ends at its first use; the other paths are still searched, so
                 // that the result does not depend on the order in which they are visited
@@ -323,7 +332,7 @@ impl Cfg {
 
             queue.extend(next.nexts().clone().into_iter());
         }
-        ranges.sort_by_key(|reg| reg.range());
+        ranges.sort_by_key(|(_, reg)| reg.range());
         ranges
     }
 }
